@@ -588,11 +588,17 @@ def reindex_form(meths):
         loc = body[0].targets[0].id
         if loop_fills(body[1], loc) and norm(body[2]) == '%s._index = %s' % (s, loc):
             return 'local'
+    comp = None
     if len(body) == 1 and isinstance(body[0], ast.Assign) and norm(body[0].targets[0]) == '%s._index' % s \
-            and isinstance(body[0].value, ast.DictComp) and len(body[0].value.generators) == 1:
-        g = body[0].value.generators[0]
+            and isinstance(body[0].value, ast.DictComp):
+        comp = body[0].value
+    elif len(body) == 2 and isinstance(body[0], ast.Assign) and len(body[0].targets) == 1 and isinstance(body[0].targets[0], ast.Name) \
+            and isinstance(body[0].value, ast.DictComp) and norm(body[1]) == '%s._index = %s' % (s, body[0].targets[0].id):
+        comp = body[0].value
+    if comp is not None and len(comp.generators) == 1:
+        g = comp.generators[0]
         if isinstance(g.target, ast.Name) and norm(g.iter) == '%s._row' % s and [norm(i) for i in g.ifs] == ["'id' in %s" % g.target.id] \
-                and norm(body[0].value.key) == "str(%s['id'])" % g.target.id and norm(body[0].value.value) == g.target.id:
+                and norm(comp.key) == "str(%s['id'])" % g.target.id and norm(comp.value) == g.target.id:
             return 'local'
     return None
 
@@ -633,6 +639,9 @@ def key_normaliser(ctx, meths, rule='C15.D2'):
             key = None
             if isinstance(node, ast.Subscript) and (norm(node.value) == '%s._index' % s or norm(node.value) in aside):
                 key = node.slice
+            elif isinstance(node, ast.Assign) and isinstance(node.value, ast.DictComp) and len(node.targets) == 1 \
+                    and (norm(node.targets[0]) == '%s._index' % s or norm(node.targets[0]) in aside):
+                key = node.value.key          # the index built by one comprehension
             elif isinstance(node, ast.Call) and isinstance(node.func, ast.Attribute) \
                     and norm(node.func.value) == '%s._index' % s and node.func.attr in ('get', 'pop', 'setdefault') \
                     and node.args:
